@@ -1,0 +1,13 @@
+//go:build verif
+
+package transaction
+
+// WatchOptionsForVerif reports what a list of watch options asks for, so that a
+// store decorator living outside this package can honour them.
+func WatchOptionsForVerif(opts ...WatchOption) (id string, replay bool) {
+	var options watchOptions
+	for _, opt := range opts {
+		opt.apply(&options)
+	}
+	return string(options.transactionID), options.replay
+}
